@@ -280,8 +280,105 @@ pub fn replay_pos(_input: &Value) -> (bool, String) {
     }
 }
 
+/// Ground obligations for C09 on fixed generators: the trusted-block helper reports the same additions (coin and
+/// hint) and removals as full validation.  Generators are quoted spend lists `(q . ((parent puzzle amount solution)))`
+/// whose puzzle is `(q . conditions)`, one per memo/hint shape.
+pub fn trusted_paths_ground() -> EvalResult {
+    use chia_bls::Signature;
+    use chia_consensus::additions_and_removals::additions_and_removals;
+    use chia_consensus::consensus_constants::TEST_CONSTANTS;
+    use chia_consensus::flags::ConsensusFlags;
+    use chia_consensus::owned_conditions::OwnedSpendBundleConditions;
+    use chia_consensus::run_block_generator::run_block_generator2;
+    use clvmr::serde::node_to_bytes;
+    use clvmr::{Allocator, NodePtr};
+    let mut res = EvalResult { obligations: 0, discharged: 0, failures: vec![], samples: vec![], exhaustive: true };
+
+    fn list(a: &mut Allocator, items: &[NodePtr]) -> NodePtr {
+        let mut r = a.nil();
+        for i in items.iter().rev() { r = a.new_pair(*i, r).unwrap(); }
+        r
+    }
+    // memo shapes: (name, builder of the argument tail after the amount)
+    let shapes: Vec<(&str, Box<dyn Fn(&mut Allocator) -> NodePtr>)> = vec![
+        ("no-memo", Box::new(|a| a.nil())),
+        ("hint-32-bytes", Box::new(|a| { let h = a.new_atom(&[9u8; 32]).unwrap(); let m = list(a, &[h]); list(a, &[m]) })),
+        ("hint-short", Box::new(|a| { let h = a.new_atom(&[1, 2, 3]).unwrap(); let m = list(a, &[h]); list(a, &[m]) })),
+        ("hint-33-bytes", Box::new(|a| { let h = a.new_atom(&[9u8; 33]).unwrap(); let m = list(a, &[h]); list(a, &[m]) })),
+        ("empty-first-memo", Box::new(|a| { let h = a.nil(); let m = list(a, &[h]); list(a, &[m]) })),
+        ("empty-memo-list", Box::new(|a| { let m = a.nil(); list(a, &[m]) })),
+        ("memo-is-pair", Box::new(|a| { let x = a.new_atom(&[5]).unwrap(); let p = a.new_pair(x, x).unwrap(); let m = list(a, &[p]); list(a, &[m]) })),
+        ("memo-list-is-atom", Box::new(|a| { let m = a.new_atom(&[7u8; 32]).unwrap(); list(a, &[m]) })),
+    ];
+    for (name, build_tail) in shapes {
+        res.obligations += 1;
+        let mut a = Allocator::new();
+        let op = a.new_atom(&[51]).unwrap();
+        let ph = a.new_atom(&[7u8; 32]).unwrap();
+        let amt = a.new_atom(&[1]).unwrap();
+        let tail = build_tail(&mut a);
+        let t2 = a.new_pair(amt, tail).unwrap();
+        let t1 = a.new_pair(ph, t2).unwrap();
+        let cond = a.new_pair(op, t1).unwrap();
+        let conds = list(&mut a, &[cond]);
+        let q = a.new_atom(&[1]).unwrap();
+        let puzzle = a.new_pair(q, conds).unwrap();
+        let parent = a.new_atom(&[3u8; 32]).unwrap();
+        let coin_amount = a.new_atom(&[100]).unwrap();
+        let solution = a.nil();
+        let spend = list(&mut a, &[parent, puzzle, coin_amount, solution]);
+        let spends = list(&mut a, &[spend]);
+        let outer = list(&mut a, &[spends]);
+        let generator = a.new_pair(q, outer).unwrap();
+        let prog = node_to_bytes(&a, generator).unwrap();
+        let flags = ConsensusFlags::DONT_VALIDATE_SIGNATURE;
+        let blocks: [&[u8]; 0] = [];
+        let full = run_block_generator2(&prog, blocks, 11_000_000_000, flags, &Signature::default(), None, &TEST_CONSTANTS);
+        let fast = additions_and_removals(&prog, blocks, flags, &TEST_CONSTANTS);
+        let verdict: Result<(), String> = match (full, fast) {
+            (Ok((a2, conds)), Ok((adds, rems))) => {
+                let owned = OwnedSpendBundleConditions::from(&a2, conds);
+                let mut want_adds = vec![];
+                let mut want_rems = vec![];
+                for s in &owned.spends {
+                    want_rems.push(hex::encode(s.coin_id));
+                    for (ph, am, hint) in &s.create_coin {
+                        want_adds.push((hex::encode(ph), *am, hint.as_ref().map(|h| hex::encode(h.as_ref()))));
+                    }
+                }
+                let got_adds: Vec<_> = adds.iter().map(|(c, h)| (hex::encode(c.puzzle_hash), c.amount, h.as_ref().map(|h| hex::encode(h.as_ref())))).collect();
+                let got_rems: Vec<_> = rems.iter().map(|(id, _)| hex::encode(id)).collect();
+                if got_adds != want_adds { Err(format!("additions differ: additions_and_removals = {got_adds:?}, validated conditions = {want_adds:?}")) }
+                else if got_rems != want_rems { Err(format!("removals differ: {got_rems:?} vs {want_rems:?}")) }
+                else { Ok(()) }
+            }
+            (Err(_), _) => Ok(()), // not a block full validation accepts: outside the statement
+            (Ok(_), Err(e)) => Err(format!("full validation accepts but additions_and_removals fails: {e:?}")),
+        };
+        match verdict {
+            Ok(()) => res.discharged += 1,
+            Err(m) => res.failures.push(json!({"id": format!("trusted_paths_ground/{name}"), "function": "additions_and_removals",
+                "message": format!("generator with CREATE_COIN memo shape {name} (hex {}): {m}", hex::encode(&prog)),
+                "clause": "additions_and_removals == additions/hints of the validated conditions",
+                "cex": {"unit": "eval", "function": "trusted_paths_ground", "input": {"case": name}}})),
+        }
+        if res.samples.len() < 4 { res.samples.push(json!({"obligation": format!("memo shape {name}: fast path == full validation"), "backend": "native-eval"})); }
+    }
+    res
+}
+
+pub fn replay_trusted(input: &Value) -> (bool, String) {
+    let r = trusted_paths_ground();
+    let case = input["case"].as_str().unwrap_or("");
+    for f in &r.failures {
+        if f["cex"]["input"]["case"].as_str() == Some(case) { return (true, f["message"].as_str().unwrap_or("").to_string()); }
+    }
+    (false, format!("memo shape {case}: fast path agrees with full validation"))
+}
+
 pub fn run(task: &str) -> Option<EvalResult> {
     match task {
+        "trusted_paths_ground" => Some(trusted_paths_ground()),
         "pos_v2_hash" => Some(pos_v2_hash()),
         "datalayer_ground" => Some(datalayer_ground()),
         "bls_cache_ground" => Some(bls_cache_ground()),
